@@ -26,9 +26,11 @@ SumFn(f) == SumOver(f, DOMAIN f)
 RECURSIVE SeqSum(_)
 SeqSum(s) == IF s = <<>> THEN 0 ELSE Head(s) + SeqSum(Tail(s))
 
-\* fold over a sequence, left to right: Op(elem, acc)
-RECURSIVE FoldL(_, _, _)
-FoldL(Op(_, _), acc, s) == IF s = <<>> THEN acc ELSE FoldL(Op, Op(Head(s), acc), Tail(s))
+\* fold over a sequence, left to right: Op(elem, acc).  Index-based and with TLCEval so that TLC
+\* neither builds a chain of lazy thunks nor re-evaluates the tail at every level.
+RECURSIVE FoldIdx(_, _, _, _)
+FoldIdx(Op(_, _), acc, s, i) == IF i > Len(s) THEN acc ELSE FoldIdx(Op, TLCEval(Op(s[i], acc)), s, TLCEval(i + 1))
+FoldL(Op(_, _), acc, s) == LET sv == TLCEval(s) IN FoldIdx(Op, acc, sv, 1)
 
 \* ascending sequence of a finite set of integers
 RECURSIVE SortedSeq(_)
